@@ -196,9 +196,14 @@ def run_task(rp, sb, p, task, launcher, env_extra=None, timeout=60):
                 if b'=' in kv:
                     k, v = kv.split(b'=', 1); envd[k.decode('utf8', 'replace')] = v.decode('utf8', 'surrogateescape')
             res['ranks'][r] = {'argv': argv, 'env': envd, 'cwd': open('%s/cwd.%d' % (pd, r)).read().rstrip('\n')}
-    for key in ('stdout_file', 'stderr_file'):
-        try:    res[key] = open(task[key]).read()
+    # the files the description names (independent of what the executor wrote into task['stdout_file']):
+    # an absolute name as is, a relative one in the task sandbox, default <uid>.out / <uid>.err
+    for key, dk, ext in (('stdout_file', 'stdout', 'out'), ('stderr_file', 'stderr', 'err')):
+        name = task['description'].get(dk) or '%s.%s' % (task['uid'], ext)
+        path = name if name.startswith('/') else '%s/%s' % (task['task_sandbox_path'], name)
+        try:    res[key] = open(path).read()
         except Exception as e: res[key] = None
+        res[key + '_recorded'] = (os.path.realpath(task.get(key) or '') == os.path.realpath(path))
     try:    res['launch_out'] = open('%s/%s.launch.out' % (task['task_sandbox_path'], task['uid'])).read()
     except Exception: res['launch_out'] = None
     return res
